@@ -439,6 +439,7 @@ def check_parseval(case, rec):
     else:
         dens = np.where(np.isfinite(dens), dens, 0.0)
     if c.jb_p is not None:
+        _check_input_forms(c, tags)
         kout = (1.0 + np.array([1e-6, 0.1, 1.0, 10.0])) / c.L
         dout = _call(c, "spectral_density", kout)
         require(
@@ -523,6 +524,26 @@ def _oracle_S(c, k):
     return sp.ft_2d(rho_v, k, L, c.support)
 
 
+def _check_input_forms(c, tags):
+    """Integer list / integer array / integer scalar / float list of wave numbers give the float-array result."""
+    ki = [0, 1, 2, 3]
+    ref_i = np.asarray(_call(c, "spectral_density", np.array(ki, dtype=float)), dtype=float)
+    for form, arg in (("int list", list(ki)), ("int array", np.array(ki)), ("int32 column", np.array(ki, dtype=np.int32).reshape(-1, 1)), ("float list", [float(v) for v in ki])):
+        got_i = np.asarray(_call(c, "spectral_density", arg), dtype=float).reshape(-1)
+        require(
+            got_i.shape == ref_i.shape and bool(np.allclose(got_i, ref_i, rtol=1e-12, atol=0, equal_nan=True)),
+            f"spectral_density({form} {ki}) = {got_i.tolist()} differs from the float array result {ref_i.tolist()}",
+            dict(tags, kind="input_form", form=form),
+        )
+    for j, kv in enumerate(ki):
+        sv = float(np.asarray(_call(c, "spectral_density", int(kv))))
+        require(bool(np.isclose(sv, ref_i[j], rtol=1e-12, atol=0, equal_nan=True)), f"spectral_density(int {kv}) = {sv!r}, float array gives {ref_i[j]!r}", dict(tags, kind="input_form", form="int scalar"))
+    sp_i = np.asarray(_call(c, "spectrum", list(ki)), dtype=float).reshape(-1)
+    sp_f = np.asarray(_call(c, "spectrum", np.array(ki, dtype=float)), dtype=float).reshape(-1)
+    require(bool(np.allclose(sp_i, sp_f, rtol=1e-12, atol=0, equal_nan=True)), f"spectrum(int list) = {sp_i.tolist()} differs from spectrum(float array) = {sp_f.tolist()}",
+            dict(tags, kind="input_form", form="spectrum int list"))
+
+
 def check_pointwise(case, rec):
     c = _ctx(case)
     tags = c.tags
@@ -559,23 +580,7 @@ def check_pointwise(case, rec):
             dict(tags, kind="stale_density_after_update"),
         )
     if c.analytic:
-        # input forms of the same wave numbers: integer list / integer array / integer scalar / float list give the float-array result
-        ki = [0, 1, 2, 3]
-        ref_i = np.asarray(_call(c, "spectral_density", np.array(ki, dtype=float)), dtype=float)
-        for form, arg in (("int list", list(ki)), ("int array", np.array(ki)), ("int32 column", np.array(ki, dtype=np.int32).reshape(-1, 1)), ("float list", [float(v) for v in ki])):
-            got_i = np.asarray(_call(c, "spectral_density", arg), dtype=float).reshape(-1)
-            require(
-                got_i.shape == ref_i.shape and bool(np.allclose(got_i, ref_i, rtol=1e-12, atol=0, equal_nan=True)),
-                f"spectral_density({form} {ki}) = {got_i.tolist()} differs from the float array result {ref_i.tolist()}",
-                dict(tags, kind="input_form", form=form),
-            )
-        for j, kv in enumerate(ki):
-            sv = float(np.asarray(_call(c, "spectral_density", int(kv))))
-            require(bool(np.isclose(sv, ref_i[j], rtol=1e-12, atol=0, equal_nan=True)), f"spectral_density(int {kv}) = {sv!r}, float array gives {ref_i[j]!r}", dict(tags, kind="input_form", form="int scalar"))
-        sp_i = np.asarray(_call(c, "spectrum", list(ki)), dtype=float).reshape(-1)
-        sp_f = np.asarray(_call(c, "spectrum", np.array(ki, dtype=float)), dtype=float).reshape(-1)
-        require(bool(np.allclose(sp_i, sp_f, rtol=1e-12, atol=0, equal_nan=True)), f"spectrum(int list) = {sp_i.tolist()} differs from spectrum(float array) = {sp_f.tolist()}",
-                dict(tags, kind="input_form", form="spectrum int list"))
+        _check_input_forms(c, tags)
     S0_or, e0 = _oracle_S(c, 0.0)
     require(S0_or > 0 and np.isfinite(S0_or), f"oracle: S(0) = {S0_or} (harness)", dict(tags, kind="oracle"))
     interesting = False
